@@ -1,6 +1,9 @@
 package gojq
 
-import "fmt"
+import (
+	"fmt"
+	"slices"
+)
 
 // CompilerOption is a compiler option.
 type CompilerOption func(*compiler)
@@ -61,6 +64,7 @@ func withFunction(name string, minarity, maxarity int, iter bool, f func(any, []
 		panic(fmt.Sprintf("invalid arity for %q: %d, %d", name, minarity, maxarity))
 	}
 	argcount := 1<<(maxarity+1) - 1<<minarity
+	f = withOwnArgs(f)
 	return func(c *compiler) {
 		if c.customFuncs == nil {
 			c.customFuncs = make(map[string]function)
@@ -81,6 +85,15 @@ func withFunction(name string, minarity, maxarity int, iter bool, f func(any, []
 		} else {
 			c.customFuncs[name] = function{argcount, iter, f}
 		}
+	}
+}
+
+// withOwnArgs gives the custom function its own copy of the argument slice:
+// the interpreter reuses its argument buffer for the next call, so a function
+// that returned or retained the slice would see (and leak) later arguments.
+func withOwnArgs(f func(any, []any) any) func(any, []any) any {
+	return func(x any, xs []any) any {
+		return f(x, slices.Clone(xs))
 	}
 }
 
